@@ -102,7 +102,8 @@ def pick_field(rng, by_ty, tys=None, lossless=False):
         ty = "unsigned"
         cands = by_ty[ty]
     if ty == "unknown" and rng.random() < 0.5:
-        n = rng.choice([600, 1000, 20000, 32767])     # a number the library has no name for
+        # a number the library has no name for (V9 has no enterprise bit: numbers >= 32768 are ordinary there)
+        n = rng.choice([600, 1000, 20000, 32767] + ([32768, 33000, 40000, 65535] if by_ty is V9_BY_TY else []))
     else:
         n = rng.choice(cands)
     return n, ty, rng.choice(WIDTHS[ty])
@@ -161,6 +162,11 @@ def ip_template(rng, tid, nfields=None, lossless=False, varlen=True, enterprise=
 
 def value_for(rng, ty, w):
     """content bytes of one field value; boundary-biased"""
+    if ty == "ip6" and w == 16 and rng.random() < 0.35:
+        # IPv4-mapped / IPv4-compatible / unspecified / loopback / runs of zeros
+        v4 = rbytes(rng, 4)
+        return rng.choice([bytes(10) + b"\xff\xff" + v4, bytes(12) + v4, bytes(16), bytes(15) + b"\x01",
+                           b"\x20\x01\x0d\xb8" + bytes(8) + v4, bytes(2) + rbytes(rng, 2) + bytes(4) + rbytes(rng, 2) + bytes(6)])
     if ty == "proto":
         return bytes([rng.choice([0, 1, 6, 17, 47, 58, 132, 143, 144, 145, 255, rng.randrange(145), rng.randrange(145), rng.randrange(146, 255)])])
     if ty == "str":
@@ -397,6 +403,11 @@ def fam_chain(rng, n, max_pkts=6, all_partitions=False):
         ex = Exporter(rng)
         k = rng.randrange(2, max_pkts + 1)
         msgs = rand_packets(rng, ex, k)
+        if rng.random() < 0.3:
+            # a header-only IPFIX message whose length field is below 16 (still a 16-byte self-delimiting packet)
+            pos = rng.randrange(0, k + 1)
+            msgs.insert(pos, {"raw": {"b": hx((10).to_bytes(2, "big") + rng.choice([0, 1, 8, 15, 16]).to_bytes(2, "big") + rbytes(rng, 12))}})
+            k += 1
         ops = [op_new(0), op_parse(0, msgs=msgs, want=[]), op_new(1)]
         for m in msgs:
             ops.append(op_parse(1, msgs=[m], want=[]))
@@ -483,6 +494,25 @@ def fam_filter(rng, n):
     return out
 
 
+def fam_allowed_mix(rng, n):
+    """non-default allowed sets (subsets of 5,7,9,10 plus versions that have no decoder), buffers mixing real packets
+    and version words without a decoder at packet boundaries"""
+    out = []
+    for _ in range(n):
+        ex = Exporter(rng, lossless=True, simple_ipfix=True)
+        S = [v for v in (5, 7, 9, 10) if rng.random() < 0.7] + [v for v in (0, 1, 6, 8, 11, 77, 65535) if rng.random() < 0.4]
+        msgs = []
+        for _ in range(rng.randrange(1, 5)):
+            if rng.random() < 0.35:
+                msgs.append(raw_version_msg(rng, rng.choice([0, 1, 6, 8, 11, 77, 65535])))
+            else:
+                msgs.extend(rand_packets(rng, ex, 1))
+        o = op_parse(0, msgs=msgs)
+        o["nospec"] = True
+        out.append(("allowed-mix", [op_new(0, allowed=S), o]))
+    return out
+
+
 def fam_trunc(rng, n, fracs=None):
     """C14: history, then  pre ++ (last packet cut strictly inside)  on p0 and  pre  alone on p1"""
     out = []
@@ -558,6 +588,44 @@ def fam_redefine(rng, n, lossless=False):
         for _ in range(rng.randrange(3, 8)):
             ops.append(op_parse(0, msgs=rand_packets(rng, ex, rng.choice([1, 1, 2]), versions=(9, 10))))
         out.append(("redefine", ops))
+    return out
+
+
+def fam_rejected_template(rng, n):
+    """C06: a template record that the parser REJECTS (no fields, only zero-length fields, cut short) for an id that
+    is cached as the other kind or the same kind must leave the caches and later decoding untouched"""
+    out = []
+    for _ in range(n):
+        tid = rng.choice([256, 260, 300])
+        kind = rng.choice(["opt", "tpl"])
+        good = ip_template(rng, tid, lossless=True, varlen=False, enterprise=False)
+        if kind == "opt":
+            good["scopeCount"] = 1
+            define = {"optTemplates": {"ts": [good], "pad": ""}}
+        else:
+            define = {"templates": {"ts": [good], "pad": ""}}
+        recs = [ip_record(rng, good["fields"]) for _ in range(2)]
+        data = {"ipfix": {"m": {"exportTime": 2, "seq": 2, "odid": 1, "sets": [{"data": {"id": tid, "recs": recs, "pad": ""}}]}}}
+        bad_fields = rng.choice([[], [{"typ": 82, "len": 0, "ent": None}], [{"typ": 82, "len": 0, "ent": None}, {"typ": 83, "len": 0, "ent": None}]])
+        bad_kind = rng.choice(["templates", "optTemplates"])
+        bad_t = {"id": tid, "fields": bad_fields}
+        if bad_kind == "optTemplates":
+            bad_t["scopeCount"] = 0
+        bad = {"ipfix": {"m": {"exportTime": 3, "seq": 3, "odid": 1, "sets": [{bad_kind: {"ts": [bad_t], "pad": ""}}]}}}
+        dm = {"ipfix": {"m": {"exportTime": 1, "seq": 1, "odid": 1, "sets": [define]}}}
+        ops = [op_new(0), op_new(1)]
+        for pid in (0, 1):
+            o = op_parse(pid, msgs=[dm], want=[]); o["nospec"] = True; ops.append(o)
+        o = op_parse(0, msgs=[data], want=[]); o["nospec"] = True; ops.append(o)
+        o = op_parse(0, msgs=[bad], want=[]); o["nospec"] = True; ops.append(o)
+        ops.append({"op": "assert_unchanged", "a": 0, "key": "C06"})
+        o = op_parse(0, msgs=[data], want=[]); o["nospec"] = True; ops.append(o)
+        # the twin parser never saw the rejected record
+        o = op_parse(1, msgs=[data], want=[]); o["nospec"] = True; ops.append(o)
+        o = op_parse(1, hexs="", want=[]); ops.append(o)
+        o = op_parse(1, msgs=[data], want=[]); o["nospec"] = True; ops.append(o)
+        ops.append({"op": "assert_same", "a": 0, "b": 1, "key": "C06", "last_only": True})
+        out.append(("rejected-template", ops))
     return out
 
 
